@@ -46,6 +46,8 @@ ASSUMPTIONS = [
     "one thread at a time touches a buffer (the lock in PatchedIceCastClient is taken as given)",
 ]
 TRUSTED = [
+    "factory scenarios: fake get_metadata (scripted probe run in the executor), identity stand-in for miniaudio.stream_any / "
+    "WavFileReadStream, DEFAULT_TIMEOUT scaled to 0.06 s and polling sleeps shortened in the real-time runs",
     "fakes of harness/c17.py: scripted io.BufferedIOBase, scripted asyncio.StreamReader subclass, fake requests "
     "response, synchronous stand-in for asyncio.run_coroutine_threadsafe (cross-checked against a real loop thread)",
 ]
